@@ -64,6 +64,7 @@ type modTarget struct {
 	sorts  []string
 	target string // ref term ("" = whole variable)
 	subkey string // mapkey(m,k): only the entry for this key of map `target` may change ("" = whole cell)
+	prefix string // calls(cls): every ghost-log variable of the class (declared lazily) is covered
 	text   string
 }
 
@@ -1010,7 +1011,7 @@ func (x *Exec) autoFrame(st *State, keys map[string]bool) string {
 		if !ok || k == allocKey {
 			continue
 		}
-		if strings.HasPrefix(k, "X:iter") || strings.HasPrefix(k, "X:defer:") {
+		if strings.HasPrefix(k, "X:iter") || strings.HasPrefix(k, "X:defer:") || strings.HasPrefix(k, "X:ctx:") {
 			continue
 		}
 		cur, ok := st.heap[k]
@@ -1074,6 +1075,9 @@ func (x *Exec) frameFormulaT(k, sort, cur, init, alloc0 string, mts []modTarget)
 	whole := false
 	isLen := strings.HasPrefix(k, "ML:")
 	for _, mt := range mts {
+		if mt.prefix != "" && strings.HasPrefix(k, mt.prefix) {
+			whole = true
+		}
 		for _, mk := range mt.keys {
 			if mk == k {
 				switch {
